@@ -55,12 +55,13 @@ func (s *Store) Set(id packets.PacketID) (bool, error) {
 	}
 	c := s.pool.Get()
 	defer c.Close()
-	_, err := c.Do("hset", getKey(s.clientID), id, 1)
+	// HSET answers 0 when the field was already stored (by this broker before a restart)
+	n, err := redis.Int(c.Do("hset", getKey(s.clientID), id, 1))
 	if err != nil {
 		return false, err
 	}
 	s.unackpublish[id] = struct{}{}
-	return false, nil
+	return n == 0, nil
 }
 
 func (s *Store) Remove(id packets.PacketID) error {
